@@ -17,6 +17,28 @@ Qed.
 Lemma same_cls_comm u v : same_cls u v = same_cls v u.
 Proof. unfold same_cls. apply N.eqb_sym. Qed.
 
+(* the constructor's quantisation (the end of Quantity.__new__): the generated
+   function is the model's mk_qty, up to the model's canonical representation
+   (Qred) of an amount that is not quantised *)
+Theorem mk_qty_impl_eq dm a u :
+  mk_qty dm a u = match u_quantum u with
+                  | None => mkQty (Qred (q_amt (mk_qty_impl dm a u))) u
+                  | Some _ => mk_qty_impl dm a u
+                  end.
+Proof.
+  unfold mk_qty, mk_qty_impl, round_to_quantum, dec_round0.
+  destruct (u_quantum u); reflexivity.
+Qed.
+
+Theorem mk_qty_impl_unit dm a u : q_unit (mk_qty_impl dm a u) = u.
+Proof. unfold mk_qty_impl. destruct (u_quantum u); reflexivity. Qed.
+
+Theorem mk_qty_impl_value dm a u : q_amt (mk_qty_impl dm a u) == q_amt (mk_qty dm a u).
+Proof.
+  rewrite mk_qty_impl_eq. destruct (u_quantum u); cbn [q_amt]; [reflexivity|].
+  symmetry. apply Qred_correct.
+Qed.
+
 Theorem quantize_impl_eq ce dm is_dec p quant rm :
   quantize_impl ce dm is_dec p quant rm = quantize ce dm is_dec p quant rm.
 Proof.
